@@ -20,13 +20,16 @@ import CasModel.Props.C09Store
       cas/ (`staged_file`, `casSynced_rename`, `put_casSynced`), nothing else creates or extends a
       blob file (`Ev.casQuiet`, `logAndApply_casQuiet`).
   Results: `StoreDur.putPowerLoss / removePowerLoss / removeRangePowerLoss / checkpointPowerLoss /
-  reopenPowerLoss` (any `lose`); `fullLoss_open_dur`, `StoreDur.put/remove/removeRange/checkpoint/
-  reopen/abandoned` (after a full power loss and `open`, and after every completed operation, the
-  store is `StoreDur` again); `C09_histories_with_power_loss` (induction over arbitrary histories of
-  completed operations and operations cut by a full power loss, `DOp`).
-  Not claimed: Async mode (the property excludes it); a partial loss followed by another power
-  loss before the next sync of the surviving unsynced bytes (`Dur` fails in between — the record
-  may be visible after the first recovery and gone after the second; it was never acknowledged).
+  reopenPowerLoss` (any `lose`); `anyLoss_open_dur`, `StoreDur.put/remove/removeRange/checkpoint/
+  reopen/abandoned` (after a power loss with ANY choice of losing files, the reboot and `open`, and
+  after every completed operation, the store is `StoreDur` again);
+  `C09_histories_with_power_loss` (induction over arbitrary histories of completed operations and
+  operations cut by a power loss, each with its own choice of losing files, `DOp`).
+  The reboot (`Disk.reboot` = `powerLoss lose` then `settle`): what is on the disk when the machine
+  comes back is durable — unsynced bytes that happened to survive the first loss cannot be taken
+  by the second. (An earlier version of this file modelled full losses only in histories and
+  listed "a partial loss followed by another loss" as not claimed; `settle` closes that.)
+  Not claimed: Async mode (the property excludes it).
 -/
 namespace CasModel
 open Ghost
@@ -1262,27 +1265,59 @@ theorem reopen_scriptOK (so : StrictOrder kind.lt) (hH : Hash32 H)
     · exact casQuiet_of_spares e (hc e he).2.1
     · exact casQuiet_of_spares e (openBody_quiet H cfg0 _ e he).1
 
-/-- **full power loss at any cut of a script that is `ScriptOK`, then `open` in Sync mode** -/
+theorem sameView_settle (d : Disk) (hw : d.WF) : SameView d d.settle :=
+  ⟨settle_WF d hw, fun i => settle_data d _, settle_data d _, fun g => settle_data d _, fun f => settle_isSome d f⟩
+
+theorem casSynced_settle (d : Disk) : CasSynced d.settle := fun _ x hx => settle_synced d _ x hx
+
+/-- **power loss with ANY choice of the files that lose their unsynced bytes**, at any cut of a
+    disciplined script whose kill images satisfy `LivePre` and keep their blob files synced, then
+    the machine comes back (`reboot`: what survived is on the disk) and `open` in Sync mode: a
+    durable live store again — `StoreDur`, the hypothesis of every theorem of this file, so the
+    guarantee holds for the next power loss as well, whatever that one takes. -/
+theorem anyLoss_open_dur (so : StrictOrder kind.lt) (hH : Hash32 H) (P : Bytes → Prop)
+    (hinj : Inj H sz P) (cfg : Config) (hk : cfg.kind = kind) (hn : cfg.N = N) (hsync : cfg.sync = true)
+    (hists : List (Recs Bytes)) (specs : List Spec) (tn : Nat) (d : Disk) (hw : d.WF) (hd : Dur d)
+    (evs : List Ev) (hdisc : Disc evs) (hpre : AllPre (LivePre H kind sz N hists specs tn) d evs)
+    (hcs : AllPre CasSynced d evs) (hspecP : ∀ sx ∈ specs, ∀ k c, sx k = some c → P c)
+    (j : Nat) (lose : FileId → Bool) (ho : OpenOK H kind cfg ((d.applyAll (evs.take j)).reboot lose)) :
+    ∃ m2 sys2 hist2 sc spec2,
+      (openBody H cfg ((d.applyAll (evs.take j)).reboot lose)).2 = .ok (m2, sc) ∧
+      sc.missing = [] ∧ sc.corrupted = [] ∧ hist2 ∈ hists ∧ spec2 ∈ specs ∧
+      StoreDur H kind sz N m2 sys2 hist2
+        (((d.applyAll (evs.take j)).reboot lose).applyAll
+          (openBody H cfg ((d.applyAll (evs.take j)).reboot lose)).1) spec2 tn := by
+  have hwl : ((d.applyAll (evs.take j)).powerLoss lose).WF := powerLoss_WF _ _ (Disk.applyAll_WF d hw _)
+  obtain ⟨hd', hle'⟩ := dur_settle ((d.applyAll (evs.take j)).powerLoss lose)
+  exact open_dur_of_pre H kind sz N so hH P hinj cfg hk hn hsync hists specs tn _
+    (LivePre.of_view H kind sz N _ _ _ _ _
+      (powerLoss_allPre_gen _ (LivePre.of_view H kind sz N _ _ _) _ d hw hd hdisc hpre hcs j lose)
+      (sameView_settle _ hwl))
+    hd' hle' (casSynced_settle _) hspecP ho
+
+/-- **power loss (any choice of files) at any cut of a script that is `ScriptOK`, reboot, `open` in
+    Sync mode** -/
 theorem StoreDur.lossOpen (so : StrictOrder kind.lt) (hH : Hash32 H) (P : Bytes → Prop)
     (hinj : Inj H sz P) (cfg : Config) (hk : cfg.kind = kind) (hn : cfg.N = N) (hsync : cfg.sync = true)
     (m : Mem) (sys : Sys (KMap Bytes) Bytes) (hist : Recs Bytes) (d : Disk) (spec : Spec) (tn : Nat)
     (ok : StoreDur H kind sz N m sys hist d spec tn)
     (hists : List (Recs Bytes)) (specs : List Spec) (tn' : Nat) (evs : List Ev)
     (s : ScriptOK H kind sz N m sys hist d hists specs tn' evs)
-    (hspecP : ∀ sx ∈ specs, ∀ k c, sx k = some c → P c) (j : Nat) (ho : OpenOK H kind cfg ((d.applyAll (evs.take j)).powerLoss (fun _ => true))) :
+    (hspecP : ∀ sx ∈ specs, ∀ k c, sx k = some c → P c) (j : Nat) (lose : FileId → Bool)
+    (ho : OpenOK H kind cfg ((d.applyAll (evs.take j)).reboot lose)) :
     ∃ m2 sys2 hist2 sc spec2,
-      (openBody H cfg ((d.applyAll (evs.take j)).powerLoss (fun _ => true))).2 = .ok (m2, sc) ∧
+      (openBody H cfg ((d.applyAll (evs.take j)).reboot lose)).2 = .ok (m2, sc) ∧
       spec2 ∈ specs ∧
       StoreDur H kind sz N m2 sys2 hist2
-        (((d.applyAll (evs.take j)).powerLoss (fun _ => true)).applyAll
-          (openBody H cfg ((d.applyAll (evs.take j)).powerLoss (fun _ => true))).1) spec2 tn' := by
-  obtain ⟨m2, sys2, hist2, sc, spec2, r1, _, _, _, hs, dur'⟩ := fullLoss_open_dur H kind sz N so hH P hinj
-    cfg hk hn hsync hists specs tn' d ok.live.sinv.wf ok.dur ok.le evs s.disc s.pre s.cas hspecP j ho
+        (((d.applyAll (evs.take j)).reboot lose).applyAll
+          (openBody H cfg ((d.applyAll (evs.take j)).reboot lose)).1) spec2 tn' := by
+  obtain ⟨m2, sys2, hist2, sc, spec2, r1, _, _, _, hs, dur'⟩ := anyLoss_open_dur H kind sz N so hH P hinj
+    cfg hk hn hsync hists specs tn' d ok.live.sinv.wf ok.dur evs s.disc s.pre s.cas hspecP j lose ho
   exact ⟨m2, sys2, hist2, sc, spec2, r1, hs, dur'⟩
 
 /-- operations of a history in Sync mode: the completed ones, and each of them cut after `j` of
-    its filesystem events by a FULL power loss (every file keeps only its synced prefix) and
-    followed by `open` -/
+    its filesystem events by a power loss in which the files in `lose` — ANY choice — keep only
+    their synced prefix, followed by the reboot and `open` -/
 inductive DOp where
   | put (key : Bytes) (chunks : List Bytes)
   | remove (key : Bytes)
@@ -1290,12 +1325,12 @@ inductive DOp where
   | checkpoint
   | reopen
   | abandon (content : Bytes)
-  | putLoss (key : Bytes) (chunks : List Bytes) (j : Nat)
-  | removeLoss (key : Bytes) (j : Nat)
-  | rangeLoss (lo hi : Bound) (j : Nat)
-  | checkpointLoss (j : Nat)
-  | reopenLoss (j : Nat)
-  | abandonLoss (content : Bytes) (j : Nat)
+  | putLoss (key : Bytes) (chunks : List Bytes) (j : Nat) (lose : FileId → Bool)
+  | removeLoss (key : Bytes) (j : Nat) (lose : FileId → Bool)
+  | rangeLoss (lo hi : Bound) (j : Nat) (lose : FileId → Bool)
+  | checkpointLoss (j : Nat) (lose : FileId → Bool)
+  | reopenLoss (j : Nat) (lose : FileId → Bool)
+  | abandonLoss (content : Bytes) (j : Nat) (lose : FileId → Bool)
 
 /-- the same operation with the power loss read as a kill — for `lStep` / `LReach`, which say what
     the operation may have done to the specification -/
@@ -1306,17 +1341,18 @@ def DOp.toL : DOp → LOp
   | .checkpoint => .checkpoint
   | .reopen => .reopen
   | .abandon c => .abandon c
-  | .putLoss k c j => .putCrash k c j
-  | .removeLoss k j => .removeCrash k j
-  | .rangeLoss lo hi j => .removeRangeCrash lo hi j
-  | .checkpointLoss j => .checkpointCrash j
-  | .reopenLoss j => .reopenCrash j
-  | .abandonLoss c j => .abandonCrash c j
+  | .putLoss k c j _ => .putCrash k c j
+  | .removeLoss k j _ => .removeCrash k j
+  | .rangeLoss lo hi j _ => .removeRangeCrash lo hi j
+  | .checkpointLoss j _ => .checkpointCrash j
+  | .reopenLoss j _ => .reopenCrash j
+  | .abandonLoss c j _ => .abandonCrash c j
 
-/-- `open` on the image of a script cut at `j` by a full power loss -/
-def lossOpen (cfg : Config) (d : Disk) (evs : List Ev) (j : Nat) :
+/-- `open` on the image of a script cut at `j` by a power loss that takes the unsynced bytes of the
+    files in `lose` -/
+def lossOpen (cfg : Config) (d : Disk) (evs : List Ev) (j : Nat) (lose : FileId → Bool) :
     Except OpenErr (Mem × ScanOut) × Disk :=
-  let img := (d.applyAll (evs.take j)).powerLoss (fun _ => true)
+  let img := (d.applyAll (evs.take j)).reboot lose
   ((openBody H cfg img).2, img.applyAll (openBody H cfg img).1)
 
 def dRun (cfg : Config) : Mem → Disk → Nat → List DOp → Option (Mem × Disk × Nat)
@@ -1342,35 +1378,35 @@ def dRun (cfg : Config) : Mem → Disk → Nat → List DOp → Option (Mem × D
     | .error _ => none
   | m, d, tn, .abandon content :: ops =>
     dRun cfg m (d.applyAll (abandonedEvents tn content)) (tn + 1) ops
-  | m, d, tn, .putLoss key chunks j :: ops =>
-    match (lossOpen H cfg d (putScript H m d tn key chunks).1 j).1 with
-    | .ok (m2, _) => dRun cfg m2 (lossOpen H cfg d (putScript H m d tn key chunks).1 j).2 (tn + 1) ops
+  | m, d, tn, .putLoss key chunks j lose :: ops =>
+    match (lossOpen H cfg d (putScript H m d tn key chunks).1 j lose).1 with
+    | .ok (m2, _) => dRun cfg m2 (lossOpen H cfg d (putScript H m d tn key chunks).1 j lose).2 (tn + 1) ops
     | .error _ => none
-  | m, d, tn, .removeLoss key j :: ops =>
-    match (lossOpen H cfg d (removeScript H m d key).1 j).1 with
-    | .ok (m2, _) => dRun cfg m2 (lossOpen H cfg d (removeScript H m d key).1 j).2 tn ops
+  | m, d, tn, .removeLoss key j lose :: ops =>
+    match (lossOpen H cfg d (removeScript H m d key).1 j lose).1 with
+    | .ok (m2, _) => dRun cfg m2 (lossOpen H cfg d (removeScript H m d key).1 j lose).2 tn ops
     | .error _ => none
-  | m, d, tn, .rangeLoss lo hi j :: ops =>
-    match (lossOpen H cfg d (removeRangeScript H m d lo hi).1 j).1 with
-    | .ok (m2, _) => dRun cfg m2 (lossOpen H cfg d (removeRangeScript H m d lo hi).1 j).2 tn ops
+  | m, d, tn, .rangeLoss lo hi j lose :: ops =>
+    match (lossOpen H cfg d (removeRangeScript H m d lo hi).1 j lose).1 with
+    | .ok (m2, _) => dRun cfg m2 (lossOpen H cfg d (removeRangeScript H m d lo hi).1 j lose).2 tn ops
     | .error _ => none
-  | m, d, tn, .checkpointLoss j :: ops =>
-    match (lossOpen H cfg d (checkpointScript .explicit m d).1 j).1 with
-    | .ok (m2, _) => dRun cfg m2 (lossOpen H cfg d (checkpointScript .explicit m d).1 j).2 tn ops
+  | m, d, tn, .checkpointLoss j lose :: ops =>
+    match (lossOpen H cfg d (checkpointScript .explicit m d).1 j lose).1 with
+    | .ok (m2, _) => dRun cfg m2 (lossOpen H cfg d (checkpointScript .explicit m d).1 j lose).2 tn ops
     | .error _ => none
-  | m, d, tn, .reopenLoss j :: ops =>
-    match (lossOpen H cfg d (closeScript m ++ (openBody H cfg (d.applyAll (closeScript m))).1) j).1 with
+  | m, d, tn, .reopenLoss j lose :: ops =>
+    match (lossOpen H cfg d (closeScript m ++ (openBody H cfg (d.applyAll (closeScript m))).1) j lose).1 with
     | .ok (m2, _) =>
-      dRun cfg m2 (lossOpen H cfg d (closeScript m ++ (openBody H cfg (d.applyAll (closeScript m))).1) j).2 tn ops
+      dRun cfg m2 (lossOpen H cfg d (closeScript m ++ (openBody H cfg (d.applyAll (closeScript m))).1) j lose).2 tn ops
     | .error _ => none
-  | _, d, tn, .abandonLoss content j :: ops =>
-    match (lossOpen H cfg d (abandonedEvents tn content) j).1 with
-    | .ok (m2, _) => dRun cfg m2 (lossOpen H cfg d (abandonedEvents tn content) j).2 (tn + 1) ops
+  | _, d, tn, .abandonLoss content j lose :: ops =>
+    match (lossOpen H cfg d (abandonedEvents tn content) j lose).1 with
+    | .ok (m2, _) => dRun cfg m2 (lossOpen H cfg d (abandonedEvents tn content) j lose).2 (tn + 1) ops
     | .error _ => none
 
 /-- a settings file that passes the gate is found on the image -/
-def GateOK (cfg : Config) (d : Disk) (evs : List Ev) (j : Nat) : Prop :=
-  OpenOK H kind cfg ((d.applyAll (evs.take j)).powerLoss (fun _ => true))
+def GateOK (cfg : Config) (d : Disk) (evs : List Ev) (j : Nat) (lose : FileId → Bool) : Prop :=
+  OpenOK H kind cfg ((d.applyAll (evs.take j)).reboot lose)
 
 def DurOK (P : Bytes → Prop) (cfg : Config) : Mem → Disk → Nat → List DOp → Prop
   | _, _, _, [] => True
@@ -1393,33 +1429,33 @@ def DurOK (P : Bytes → Prop) (cfg : Config) : Mem → Disk → Nat → List DO
         (openBody H cfg (d.applyAll (closeScript m))).1) tn ops
   | m, d, tn, .abandon content :: ops =>
     DurOK P cfg m (d.applyAll (abandonedEvents tn content)) (tn + 1) ops
-  | m, d, tn, .putLoss key chunks j :: ops =>
-    PutOK H kind P m key chunks ∧ GateOK H kind cfg d (putScript H m d tn key chunks).1 j ∧
-    ∀ m2 sc, (lossOpen H cfg d (putScript H m d tn key chunks).1 j).1 = .ok (m2, sc) →
-      DurOK P cfg m2 (lossOpen H cfg d (putScript H m d tn key chunks).1 j).2 (tn + 1) ops
-  | m, d, tn, .removeLoss key j :: ops =>
-    RemoveOK kind m key ∧ GateOK H kind cfg d (removeScript H m d key).1 j ∧
-    ∀ m2 sc, (lossOpen H cfg d (removeScript H m d key).1 j).1 = .ok (m2, sc) →
-      DurOK P cfg m2 (lossOpen H cfg d (removeScript H m d key).1 j).2 tn ops
-  | m, d, tn, .rangeLoss lo hi j :: ops =>
-    RangeOK kind m lo hi ∧ GateOK H kind cfg d (removeRangeScript H m d lo hi).1 j ∧
-    ∀ m2 sc, (lossOpen H cfg d (removeRangeScript H m d lo hi).1 j).1 = .ok (m2, sc) →
-      DurOK P cfg m2 (lossOpen H cfg d (removeRangeScript H m d lo hi).1 j).2 tn ops
-  | m, d, tn, .checkpointLoss j :: ops =>
-    (SaveOK kind m.idx ∧ m.next < U64) ∧ GateOK H kind cfg d (checkpointScript .explicit m d).1 j ∧
-    ∀ m2 sc, (lossOpen H cfg d (checkpointScript .explicit m d).1 j).1 = .ok (m2, sc) →
-      DurOK P cfg m2 (lossOpen H cfg d (checkpointScript .explicit m d).1 j).2 tn ops
-  | m, d, tn, .reopenLoss j :: ops =>
+  | m, d, tn, .putLoss key chunks j lose :: ops =>
+    PutOK H kind P m key chunks ∧ GateOK H kind cfg d (putScript H m d tn key chunks).1 j lose ∧
+    ∀ m2 sc, (lossOpen H cfg d (putScript H m d tn key chunks).1 j lose).1 = .ok (m2, sc) →
+      DurOK P cfg m2 (lossOpen H cfg d (putScript H m d tn key chunks).1 j lose).2 (tn + 1) ops
+  | m, d, tn, .removeLoss key j lose :: ops =>
+    RemoveOK kind m key ∧ GateOK H kind cfg d (removeScript H m d key).1 j lose ∧
+    ∀ m2 sc, (lossOpen H cfg d (removeScript H m d key).1 j lose).1 = .ok (m2, sc) →
+      DurOK P cfg m2 (lossOpen H cfg d (removeScript H m d key).1 j lose).2 tn ops
+  | m, d, tn, .rangeLoss lo hi j lose :: ops =>
+    RangeOK kind m lo hi ∧ GateOK H kind cfg d (removeRangeScript H m d lo hi).1 j lose ∧
+    ∀ m2 sc, (lossOpen H cfg d (removeRangeScript H m d lo hi).1 j lose).1 = .ok (m2, sc) →
+      DurOK P cfg m2 (lossOpen H cfg d (removeRangeScript H m d lo hi).1 j lose).2 tn ops
+  | m, d, tn, .checkpointLoss j lose :: ops =>
+    (SaveOK kind m.idx ∧ m.next < U64) ∧ GateOK H kind cfg d (checkpointScript .explicit m d).1 j lose ∧
+    ∀ m2 sc, (lossOpen H cfg d (checkpointScript .explicit m d).1 j lose).1 = .ok (m2, sc) →
+      DurOK P cfg m2 (lossOpen H cfg d (checkpointScript .explicit m d).1 j lose).2 tn ops
+  | m, d, tn, .reopenLoss j lose :: ops =>
     OpenOK H kind cfg (d.applyAll (closeScript m)) ∧
-    GateOK H kind cfg d (closeScript m ++ (openBody H cfg (d.applyAll (closeScript m))).1) j ∧
-    ∀ m2 sc, (lossOpen H cfg d (closeScript m ++ (openBody H cfg (d.applyAll (closeScript m))).1) j).1 =
+    GateOK H kind cfg d (closeScript m ++ (openBody H cfg (d.applyAll (closeScript m))).1) j lose ∧
+    ∀ m2 sc, (lossOpen H cfg d (closeScript m ++ (openBody H cfg (d.applyAll (closeScript m))).1) j lose).1 =
         .ok (m2, sc) →
       DurOK P cfg m2 (lossOpen H cfg d (closeScript m ++
-        (openBody H cfg (d.applyAll (closeScript m))).1) j).2 tn ops
-  | _, d, tn, .abandonLoss content j :: ops =>
-    GateOK H kind cfg d (abandonedEvents tn content) j ∧
-    ∀ m2 sc, (lossOpen H cfg d (abandonedEvents tn content) j).1 = .ok (m2, sc) →
-      DurOK P cfg m2 (lossOpen H cfg d (abandonedEvents tn content) j).2 (tn + 1) ops
+        (openBody H cfg (d.applyAll (closeScript m))).1) j lose).2 tn ops
+  | _, d, tn, .abandonLoss content j lose :: ops =>
+    GateOK H kind cfg d (abandonedEvents tn content) j lose ∧
+    ∀ m2 sc, (lossOpen H cfg d (abandonedEvents tn content) j lose).1 = .ok (m2, sc) →
+      DurOK P cfg m2 (lossOpen H cfg d (abandonedEvents tn content) j lose).2 (tn + 1) ops
 
 theorem specsP_single (P : Bytes → Prop) (spec : Spec) (h : ∀ k c, spec k = some c → P c) :
     ∀ sx ∈ [spec], ∀ k c, sx k = some c → P c := by
@@ -1435,7 +1471,8 @@ theorem specsP_pair (P : Bytes → Prop) (s1 s2 : Spec) (h1 : ∀ k c, s1 k = so
 
 /-- **C09 over whole histories (Sync mode, contents included).**  Any sequence of puts, removes,
     range removals, checkpoints, clean restarts and abandoned transactions, and any of these cut
-    after any number of filesystem events by a full power loss and followed by `open`, started
+    after any number of filesystem events by a power loss (any choice of files losing their
+    unsynced bytes, a different one each time) and followed by the reboot and `open`, started
     from a durable live store (e.g. a fresh one in Sync mode), runs to completion — every `open`
     returns a handle — and ends in a durable live store whose every key reads the content of a
     specification reachable by applying each completed operation and applying-or-not each
@@ -1504,12 +1541,12 @@ theorem C09_histories_with_power_loss (so : StrictOrder kind.lt) (hH : Hash32 H)
         ih m sys hist _ _ (tn + 1) ok1 hspecP hok
       exact ⟨m', d', tn', sys', hist', spec', by simp only [dRun]; exact hr,
         ⟨_, rfl, hreach⟩, okf, hread⟩
-    | putLoss key chunks j =>
+    | putLoss key chunks j lose =>
       obtain ⟨hpo, ho, hnext⟩ := hok
       obtain ⟨m2, sys2, hist2, sc, spec2, hres, hs2, ok2⟩ := ok.lossOpen H kind sz N so hH P hinj cfg hk hn
         hsync m sys hist d spec tn _ _ _ _
         (put_scriptOK H kind sz N so hH P hinj m sys hist d spec tn ok hspecP key chunks hpo)
-        (specsP_pair P _ _ hspecP (specP_put P spec hspecP key _ hpo.1)) j ho
+        (specsP_pair P _ _ hspecP (specP_put P spec hspecP key _ hpo.1)) j lose ho
       have hsp2 : ∀ k c, spec2 k = some c → P c :=
         specsP_pair P _ _ hspecP (specP_put P spec hspecP key _ hpo.1) spec2 hs2
       obtain ⟨m', d', tn', sys', hist', spec', hr, hreach, okf, hread⟩ :=
@@ -1517,14 +1554,14 @@ theorem C09_histories_with_power_loss (so : StrictOrder kind.lt) (hH : Hash32 H)
       refine ⟨m', d', tn', sys', hist', spec', ?_, ⟨spec2, by simpa [DOp.toL, lStep] using hs2, hreach⟩,
         okf, hread⟩
       simp only [dRun]
-      rw [show (lossOpen H cfg d (putScript H m d tn key chunks).1 j).1 = .ok (m2, sc) from hres]
+      rw [show (lossOpen H cfg d (putScript H m d tn key chunks).1 j lose).1 = .ok (m2, sc) from hres]
       exact hr
-    | removeLoss key j =>
+    | removeLoss key j lose =>
       obtain ⟨hro, ho, hnext⟩ := hok
       obtain ⟨m2, sys2, hist2, sc, spec2, hres, hs2, ok2⟩ := ok.lossOpen H kind sz N so hH P hinj cfg hk hn
         hsync m sys hist d spec tn _ _ _ _
         (remove_scriptOK H kind sz N so hH m sys hist d spec tn ok key hro)
-        (specsP_pair P _ _ hspecP (specP_remove P spec hspecP key)) j ho
+        (specsP_pair P _ _ hspecP (specP_remove P spec hspecP key)) j lose ho
       have hsp2 : ∀ k c, spec2 k = some c → P c :=
         specsP_pair P _ _ hspecP (specP_remove P spec hspecP key) spec2 hs2
       obtain ⟨m', d', tn', sys', hist', spec', hr, hreach, okf, hread⟩ :=
@@ -1532,14 +1569,14 @@ theorem C09_histories_with_power_loss (so : StrictOrder kind.lt) (hH : Hash32 H)
       refine ⟨m', d', tn', sys', hist', spec', ?_, ⟨spec2, by simpa [DOp.toL, lStep] using hs2, hreach⟩,
         okf, hread⟩
       simp only [dRun]
-      rw [show (lossOpen H cfg d (removeScript H m d key).1 j).1 = .ok (m2, sc) from hres]
+      rw [show (lossOpen H cfg d (removeScript H m d key).1 j lose).1 = .ok (m2, sc) from hres]
       exact hr
-    | rangeLoss lo hi j =>
+    | rangeLoss lo hi j lose =>
       obtain ⟨hro, ho, hnext⟩ := hok
       obtain ⟨m2, sys2, hist2, sc, spec2, hres, hs2, ok2⟩ := ok.lossOpen H kind sz N so hH P hinj cfg hk hn
         hsync m sys hist d spec tn _ _ _ _
         (range_scriptOK H kind sz N so hH m sys hist d spec tn ok lo hi hro)
-        (specsP_pair P _ _ hspecP (specP_range P spec hspecP _)) j ho
+        (specsP_pair P _ _ hspecP (specP_range P spec hspecP _)) j lose ho
       have hsp2 : ∀ k c, spec2 k = some c → P c :=
         specsP_pair P _ _ hspecP (specP_range P spec hspecP _) spec2 hs2
       obtain ⟨m', d', tn', sys', hist', spec', hr, hreach, okf, hread⟩ :=
@@ -1547,47 +1584,47 @@ theorem C09_histories_with_power_loss (so : StrictOrder kind.lt) (hH : Hash32 H)
       refine ⟨m', d', tn', sys', hist', spec', ?_, ⟨spec2, by simpa [DOp.toL, lStep] using hs2, hreach⟩,
         okf, hread⟩
       simp only [dRun]
-      rw [show (lossOpen H cfg d (removeRangeScript H m d lo hi).1 j).1 = .ok (m2, sc) from hres]
+      rw [show (lossOpen H cfg d (removeRangeScript H m d lo hi).1 j lose).1 = .ok (m2, sc) from hres]
       exact hr
-    | checkpointLoss j =>
+    | checkpointLoss j lose =>
       obtain ⟨⟨hsv, hver⟩, ho, hnext⟩ := hok
       obtain ⟨m2, sys2, hist2, sc, spec2, hres, hs2, ok2⟩ := ok.lossOpen H kind sz N so hH P hinj cfg hk hn
         hsync m sys hist d spec tn _ _ _ _
         (checkpoint_scriptOK H kind sz N so m sys hist d spec tn ok hsv hver)
-        (specsP_single P _ hspecP) j ho
+        (specsP_single P _ hspecP) j lose ho
       simp only [List.mem_singleton] at hs2; subst hs2
       obtain ⟨m', d', tn', sys', hist', spec', hr, hreach, okf, hread⟩ :=
         ih m2 sys2 hist2 _ _ tn ok2 hspecP (hnext m2 sc hres)
       refine ⟨m', d', tn', sys', hist', spec', ?_, ⟨_, rfl, hreach⟩, okf, hread⟩
       simp only [dRun]
-      rw [show (lossOpen H cfg d (checkpointScript .explicit m d).1 j).1 = .ok (m2, sc) from hres]
+      rw [show (lossOpen H cfg d (checkpointScript .explicit m d).1 j lose).1 = .ok (m2, sc) from hres]
       exact hr
-    | reopenLoss j =>
+    | reopenLoss j lose =>
       obtain ⟨ho0, ho, hnext⟩ := hok
       obtain ⟨m2, sys2, hist2, sc, spec2, hres, hs2, ok2⟩ := ok.lossOpen H kind sz N so hH P hinj cfg hk hn
         hsync m sys hist d spec tn _ _ _ _
         (reopen_scriptOK H kind sz N so hH m sys hist d spec tn ok cfg hk hn ho0)
-        (specsP_single P _ hspecP) j ho
+        (specsP_single P _ hspecP) j lose ho
       simp only [List.mem_singleton] at hs2; subst hs2
       obtain ⟨m', d', tn', sys', hist', spec', hr, hreach, okf, hread⟩ :=
         ih m2 sys2 hist2 _ _ tn ok2 hspecP (hnext m2 sc hres)
       refine ⟨m', d', tn', sys', hist', spec', ?_, ⟨_, rfl, hreach⟩, okf, hread⟩
       simp only [dRun]
-      rw [show (lossOpen H cfg d (closeScript m ++ (openBody H cfg (d.applyAll (closeScript m))).1) j).1 =
+      rw [show (lossOpen H cfg d (closeScript m ++ (openBody H cfg (d.applyAll (closeScript m))).1) j lose).1 =
         .ok (m2, sc) from hres]
       exact hr
-    | abandonLoss content j =>
+    | abandonLoss content j lose =>
       obtain ⟨ho, hnext⟩ := hok
       obtain ⟨m2, sys2, hist2, sc, spec2, hres, hs2, ok2⟩ := ok.lossOpen H kind sz N so hH P hinj cfg hk hn
         hsync m sys hist d spec tn _ _ _ _
         (abandoned_scriptOK H kind sz N m sys hist d spec tn ok content)
-        (specsP_single P _ hspecP) j ho
+        (specsP_single P _ hspecP) j lose ho
       simp only [List.mem_singleton] at hs2; subst hs2
       obtain ⟨m', d', tn', sys', hist', spec', hr, hreach, okf, hread⟩ :=
         ih m2 sys2 hist2 _ _ (tn + 1) ok2 hspecP (hnext m2 sc hres)
       refine ⟨m', d', tn', sys', hist', spec', ?_, ⟨_, rfl, hreach⟩, okf, hread⟩
       simp only [dRun]
-      rw [show (lossOpen H cfg d (abandonedEvents tn content) j).1 = .ok (m2, sc) from hres]
+      rw [show (lossOpen H cfg d (abandonedEvents tn content) j lose).1 = .ok (m2, sc) from hres]
       exact hr
 
 end CasModel
